@@ -865,6 +865,165 @@ theorem stopCodons_localSound (n tbl : Nat) (tb : Gen.CodonTable) (ht : tableOf 
   · intro wa wb s t hn
     exact stopCodons_soundAt tbl tb ht a m wa wb st 0 hst s t (by omega) none
 
+/-! ### EnforceTranslation without a start-codon policy (forward / unstranded, whole codons) -/
+
+theorem translateCodons_some_iff (t : Gen.CodonTable) (cs : List Seq) (got : Seq) :
+    translateCodons t cs = some got ↔ (got.length = cs.length ∧ ∀ j, j < cs.length → (cs[j]?).bind (translateCodon t) = got[j]?) := by
+  induction cs generalizing got with
+  | nil =>
+    simp only [translateCodons, Option.some.injEq, List.length_nil, Nat.not_lt_zero, false_imp_iff, implies_true, and_true]
+    constructor
+    · intro h; rw [← h]; rfl
+    · intro h; exact (List.length_eq_zero_iff.1 h).symm
+  | cons c cs ih =>
+    simp only [translateCodons]
+    constructor
+    · intro h
+      cases hc : translateCodon t c with
+      | none => simp [hc] at h
+      | some x =>
+        cases hr : translateCodons t cs with
+        | none => simp [hc, hr] at h
+        | some r =>
+          simp only [hc, hr, Option.some.injEq] at h
+          subst h
+          obtain ⟨h1, h2⟩ := (ih r).1 hr
+          refine ⟨by simp [h1], ?_⟩
+          intro j hj
+          cases j with
+          | zero => simp [hc]
+          | succ j => simpa using h2 j (by simpa using hj)
+    · rintro ⟨h1, h2⟩
+      cases got with
+      | nil => simp at h1
+      | cons x r =>
+        have h0 := h2 0 (by simp)
+        simp only [List.getElem?_cons_zero, Option.bind_some] at h0
+        have hr : translateCodons t cs = some r := by
+          apply (ih r).2
+          refine ⟨by simpa using h1, ?_⟩
+          intro j hj
+          simpa using h2 (j + 1) (by simpa using hj)
+        simp [h0, hr]
+
+/-- `EnforceTranslation` (no start-codon policy) on whole codons `[a, a+3m)` passes exactly when codon
+    `j` translates to the `j`-th residue of the wanted protein, for every `j` -/
+theorem translation_passes_iff (tbl : Nat) (t : Gen.CodonTable) (ht : tableOf tbl = some t) (tr : Seq) (a m : Nat) (st : Int)
+    (hst : st ≠ -1) (s : Seq) (hb : a + 3 * m ≤ s.length) :
+    PassesB (.translation tbl .none tr ⟨a, (a + 3 * m : Nat), st⟩) s ↔
+      (m ≤ tr.length ∧ ∀ j, j < m → ∃ x, translateCodon t (win s (a + 3 * j) 3) = some x ∧ tr[j]? = some x) := by
+  have hsub : (⟨(a : Int), ((a + 3 * m : Nat) : Int), st⟩ : Loc).extract s = some (win s a (3 * m)) := by
+    have : (st == -1) = false := by simp [hst]
+    simp only [Loc.extract, this, Bool.false_eq_true, if_false, C15.pySlice_nat' s a (a + 3 * m) (by omega) hb, win]
+    congr 2
+    omega
+  have hcs := chunk3_win s a m hb
+  simp only [PassesB, evaluate, ht, hsub, translate, bne_self_eq_false, Bool.false_and, Bool.false_eq_true, if_false]
+  constructor
+  · rintro ⟨e, he, hsc⟩
+    cases hg : translateCodons t (chunk3 (win s a (3 * m))) with
+    | none => simp [hg] at he
+    | some got =>
+      simp only [hg] at he
+      split at he
+      · simp at he
+      · rename_i hlen
+        simp only [Option.some.injEq] at he
+        rw [← he] at hsc
+        have hz := (C10.ofInt_neg_nonneg_iff _).1 hsc
+        rw [filter_range_length_zero] at hz
+        obtain ⟨h1, h2⟩ := (translateCodons_some_iff t _ got).1 hg
+        rw [hcs, List.length_map, List.length_range] at h1 h2
+        refine ⟨by omega, ?_⟩
+        intro j hj
+        have hzj := hz j (by omega)
+        have h2j := h2 j hj
+        rw [List.getElem?_map, List.getElem?_range hj] at h2j
+        simp only [Option.map_some, Option.bind_some] at h2j
+        have hgj : ∃ x, got[j]? = some x := ⟨got[j]'(by omega), List.getElem?_eq_getElem (by omega)⟩
+        obtain ⟨x, hx⟩ := hgj
+        refine ⟨x, by rw [h2j, hx], ?_⟩
+        simp only [bne_eq_false_iff_eq, hx] at hzj
+        exact hzj.symm
+  · rintro ⟨hm, hall⟩
+    have hgot : ∃ got, translateCodons t (chunk3 (win s a (3 * m))) = some got ∧ got.length = m ∧ ∀ j, j < m → got[j]? = tr[j]? := by
+      refine ⟨(List.range m).map (fun j => (tr[j]?).getD 'X'), ?_, by simp, ?_⟩
+      · rw [translateCodons_some_iff, hcs]
+        refine ⟨by simp, ?_⟩
+        intro j hj
+        rw [List.length_map, List.length_range] at hj
+        obtain ⟨x, hx1, hx2⟩ := hall j hj
+        simp [List.getElem?_map, List.getElem?_range hj, hx1, hx2]
+      · intro j hj
+        obtain ⟨x, _, hx2⟩ := hall j hj
+        simp [List.getElem?_map, List.getElem?_range hj, hx2]
+    obtain ⟨got, hg, hl, hj⟩ := hgot
+    simp only [hg]
+    have : ¬ (got.length > tr.length) := by omega
+    simp only [this, if_false]
+    refine ⟨_, rfl, ?_⟩
+    simp only [NumK.ofInt]
+    rw [C10.ofInt_neg_nonneg_iff, filter_range_length_zero]
+    intro i hi
+    simp [hj i (by omega)]
+
+/-- **C08, first clause, for EnforceTranslation** (no start-codon policy; whole codons `[a, a+3m)` on
+    the forward strand or unstranded; any genetic table, window and edit): the localized
+    specification — codon-snapped window, protein sliced to the codons `[sc, ec)` — is sound -/
+theorem translation_soundAt (tbl : Nat) (tb : Gen.CodonTable) (ht : tableOf tbl = some tb) (tr : Seq) (a m wa wb : Nat)
+    (st ws : Int) (hst : st ≠ -1) (s t : Seq) (hb : a + 3 * m ≤ s.length) (rh : Option Bool) :
+    SoundAt (.translation tbl .none tr ⟨a, (a + 3 * m : Nat), st⟩) ⟨wa, wb, ws⟩ rh s t := by
+  intro hp hag0 hl
+  have hag : AgreeOutside wa wb s t := hag0
+  have hbt : a + 3 * m ≤ t.length := by rw [← hag.1]; exact hb
+  by_cases hw : wa < wb
+  case neg =>
+    have : s = t := List.ext_getElem? (fun i => hag.2 i (by omega))
+    rw [← this]; exact hp
+  rw [translation_passes_iff tbl tb ht tr a m st hst s hb] at hp
+  rw [translation_passes_iff tbl tb ht tr a m st hst t hbt]
+  refine ⟨hp.1, ?_⟩
+  intro j hj
+  by_cases hin : wa < a + 3 * j + 3 ∧ a + 3 * j < wb
+  · have hov : max a wa < min (a + 3 * m) wb := by omega
+    have hst' : (st != -1) = true := by simp [hst]
+    simp only [localized, overlap_nat a (a + 3 * m) wa wb st ws hov] at hl
+    have hcw : codonWindow (⟨(a : Int), ((a + 3 * m : Nat) : Int), st⟩ : Loc)
+          ⟨((max a wa : Nat) : Int), ((min (a + 3 * m) wb : Nat) : Int), st⟩ =
+        (⟨((a + 3 * ((max a wa - a) / 3) : Nat) : Int),
+          ((a + 3 * ((max a wa - a) / 3) + 3 * (min m ((min (a + 3 * m) wb - a - 1) / 3 + 1) - (max a wa - a) / 3) : Nat) : Int), st⟩,
+         (max a wa - a) / 3, (min (a + 3 * m) wb - a - 1) / 3 + 1) := by
+      simp only [codonWindow, hst', if_true, Prod.mk.injEq, Loc.mk.injEq, and_true]
+      refine ⟨⟨?_, ?_⟩, ?_, ?_⟩ <;> omega
+    rw [hcw] at hl
+    simp only [ite_self] at hl
+    have hl' := (translation_passes_iff tbl tb ht _ _ _ st hst t (by omega)).1 hl
+    obtain ⟨x, hx1, hx2⟩ := hl'.2 (j - (max a wa - a) / 3) (by omega)
+    have e : a + 3 * ((max a wa - a) / 3) + 3 * (j - (max a wa - a) / 3) = a + 3 * j := by omega
+    rw [e] at hx1
+    refine ⟨x, hx1, ?_⟩
+    rw [List.getElem?_take, List.getElem?_drop] at hx2
+    split at hx2
+    · rw [← hx2]; congr 1; omega
+    · simp at hx2
+  · have hwin : win s (a + 3 * j) 3 = win t (a + 3 * j) 3 := by
+      apply win_eq_of_agree s t wa wb hag
+      omega
+    rw [← hwin]
+    exact hp.2 j hj
+
+/-- `EnforceTranslation` (no start-codon policy, whole codons, forward / unstranded, inside the
+    sequence) satisfies the hypothesis of `C02.optimize_preserves_feasible` -/
+theorem translation_localSound (n tbl : Nat) (tb : Gen.CodonTable) (ht : tableOf tbl = some tb) (tr : Seq) (a m : Nat)
+    (st : Int) (hst : st ≠ -1) (hb : a + 3 * m ≤ n) :
+    C02.LocalSound n evB lzB iniB (.translation tbl .none tr ⟨a, (a + 3 * m : Nat), st⟩) := by
+  apply localSound_of_soundAt
+  · intro w
+    simp only [localized]
+    split <;> simp
+  · intro wa wb s t hn
+    exact translation_soundAt tbl tb ht tr a m wa wb st 0 hst s t (by omega) none
+
 /-! ### the closed statement for problems made of built-in constraints
 
 The hypotheses of `C02.optimize_preserves_feasible` are met by the built-in model itself: the
@@ -910,6 +1069,8 @@ inductive Proven (n : Nat) : BSpec Rat → Prop where
       Proven n (.enforceSequence sq ⟨a, b, st⟩)
   | stopCodons (tbl : Nat) (tb : Gen.CodonTable) (ht : tableOf tbl = some tb) (a m : Nat) (st : Int) (hst : st ≠ -1)
       (hb : a + 3 * m ≤ n) : Proven n (.stopCodons tbl ⟨a, (a + 3 * m : Nat), st⟩)
+  | translation (tbl : Nat) (tb : Gen.CodonTable) (ht : tableOf tbl = some tb) (tr : Seq) (a m : Nat) (st : Int)
+      (hst : st ≠ -1) (hb : a + 3 * m ≤ n) : Proven n (.translation tbl .none tr ⟨a, (a + 3 * m : Nat), st⟩)
   | returnsSelf (b : BSpec Rat) (h : ∀ w, b.localized w none = .same) : Proven n b
 
 theorem proven_localSound (n : Nat) (b : BSpec Rat) (h : Proven n b) : C02.LocalSound n evB lzB iniB b := by
@@ -917,10 +1078,11 @@ theorem proven_localSound (n : Nat) (b : BSpec Rat) (h : Proven n b) : C02.Local
   | avoidChanges target a b st hst hab hb hlen => exact avoidChanges_localSound n target a b st hst hab hb hlen
   | enforceSequence sq a b st hst hab hb => exact enforceSequence_localSound n sq a b st hst hab hb
   | stopCodons tbl tb ht a m st hst hb => exact stopCodons_localSound n tbl tb ht a m st hst hb
+  | translation tbl tb ht tr a m st hst hb => exact translation_localSound n tbl tb ht tr a m st hst hb
   | returnsSelf b h => exact same_localSound n b h
 
 /-- **C02, closed for the built-in model**: a problem whose (evaluated) constraints are AvoidChanges /
-    EnforceSequence / AvoidStopCodons regions on the forward strand and any specifications that localize to themselves
+    EnforceSequence / AvoidStopCodons / EnforceTranslation regions on the forward strand and any specifications that localize to themselves
     (EnforceChoice, global GC bounds, edit budgets, …), with *any* objectives, on a well-formed
     mutation space: if all of them pass before `optimize()`, all of them pass after it — for every
     setting and every random tape, whether `optimize()` returns or raises. -/
